@@ -85,6 +85,8 @@ type ChanObj struct {
 	elem   types.Type
 	id     int
 	label  string
+	sendq       []*sendItem
+	recvWaiting int
 	// timer/ctx channels: readiness decided by a symbolic choice
 	maybeReady bool
 	readyVal   Value
